@@ -693,3 +693,14 @@ _run_c16d = run
 def run(ctx):
     _run_c16d(ctx)
     ctx.guard(r16_9)
+
+
+_run_before_r13_1 = run
+
+
+def run(ctx):
+    _run_before_r13_1(ctx)
+    # the operators the library derives are functions of their arguments: nothing is kept on the wrapper from one call to
+    # the next (a diffusion memoised per state tensor is stale at another time; rule of C13)
+    from . import c13
+    ctx.guard(c13.r13_1)
